@@ -48,15 +48,18 @@ Definition le_parts (e : levent) : list bytes :=
   (if N.eqb (N.land hdr 1) 0 then [] else [ marshal_uint (N.of_nat (length (le_flds e))); le_flds e ]).
 Definition marshal_into (sz : nat) (e : levent) : bytes := fill_parts (le_parts e) sz.
 
-(* Unmarshal into the struct [prev] that the caller reuses: Fields is assigned only when bit 0 of the
-   header is set; otherwise the previous value stays. *)
-Definition unmarshal_le (prev : levent) (buf : bytes) : outcome levent :=
+(* Unmarshal into the struct [prev] that the caller reuses.  Fields is assigned when bit 0 of the header
+   is set and reset to "" when it is clear ([clear] = true, the code).  [clear] = false is the code
+   before the repair: the previous value of the struct stayed when the record carried no fields. *)
+Definition unmarshal_le_v (clear : bool) (prev : levent) (buf : bytes) : outcome levent :=
   obind (unmarshal_byte buf) (fun '(hdr, r1) =>
   obind (unmarshal_u64 r1) (fun '(ts, r2) =>
   obind (unmarshal_bytes r2) (fun '(msg, r3) =>
-    if N.eqb (N.land hdr 1) 0 then Ok {| le_ts := int64_of_u64 ts; le_msg := msg; le_flds := le_flds prev |}
+    if N.eqb (N.land hdr 1) 0
+    then Ok {| le_ts := int64_of_u64 ts; le_msg := msg; le_flds := if clear then [] else le_flds prev |}
     else obind (unmarshal_bytes r3) (fun '(flds, _) =>
            Ok {| le_ts := int64_of_u64 ts; le_msg := msg; le_flds := flds |})))).
+Definition unmarshal_le : levent -> bytes -> outcome levent := unmarshal_le_v true.
 
 (* LogEvent.Release(): Msg = nil, Fields = "" (what LogEventIterator.Next does to its struct) *)
 Definition released (e : levent) : levent := {| le_ts := le_ts e; le_msg := []; le_flds := [] |}.
